@@ -345,6 +345,19 @@ class Package:
         """the literal a class-level binding denotes when it is a (nested) tuple / list / set / dict of constants -- `tuple([..])`,
         `frozenset({..})` .. of such a literal included -- else None.  Tuples, sets and frozensets come back as tuples."""
         import copy
+        if isinstance(node, ast.BinOp) and isinstance(node.op, (ast.Add, ast.Sub, ast.Mult)):
+            # integer arithmetic on constants (`34 + 56` as a column bound) is the constant
+            l, r = Package._literal_table(node.left), Package._literal_table(node.right)
+            if isinstance(l, ast.Constant) and isinstance(r, ast.Constant) and type(l.value) is int and type(r.value) is int:
+                v = l.value + r.value if isinstance(node.op, ast.Add) else l.value - r.value if isinstance(node.op, ast.Sub) else l.value * r.value
+                return ast.copy_location(ast.Constant(value=v), node)
+            return None
+        if isinstance(node, ast.Call) and isinstance(node.func, ast.Name) and node.func.id == "slice" and 1 <= len(node.args) <= 3 and not node.keywords \
+                and any(isinstance(a, ast.BinOp) for a in node.args):
+            args = [Package._literal_table(a) for a in node.args]
+            if all(isinstance(a, ast.Constant) and (a.value is None or type(a.value) is int) for a in args):
+                return ast.copy_location(ast.Call(func=copy.deepcopy(node.func), args=args, keywords=[]), node)
+            return None
         if isinstance(node, ast.Call) and isinstance(node.func, ast.Name) and node.func.id in ("tuple", "list", "frozenset", "set") and len(node.args) == 1 and not node.keywords:
             inner = Package._literal_table(node.args[0])
             if isinstance(inner, (ast.Tuple, ast.List)):
@@ -445,6 +458,26 @@ class Package:
         ast.fix_missing_locations(new)
         return new
 
+    def with_module_constants(self, file: str, fn):
+        """`fn` (modified in place) with every read of a module-level literal table of CONSTANTS of `file` (bound once at module level,
+        never re-bound or mutated: normalize.module_tables; nested tuples / lists of constants only) replaced by the literal -- unless the
+        function binds the name itself.  `x in _NO_LIMIT` is then `x in ["N", "NONE", ..]`, as it is for a class-level constant."""
+        tabs = {k: v for k, v in self.module_tables(file).items() if self._literal_table(v) is not None and not isinstance(v, ast.Dict) and len(getattr(v, "elts", ())) <= 64}
+        if not tabs:
+            return fn
+        bound = {n.id for n in ast.walk(fn) if isinstance(n, ast.Name) and isinstance(n.ctx, (ast.Store, ast.Del))} | {a.arg for a in ast.walk(fn) if isinstance(a, ast.arg)} \
+            | {x for n in ast.walk(fn) if isinstance(n, (ast.Global, ast.Nonlocal)) for x in n.names}
+        pkg = self
+
+        class P(ast.NodeTransformer):
+            def visit_Name(self, n):
+                if isinstance(n.ctx, ast.Load) and n.id in tabs and n.id not in bound:
+                    return ast.copy_location(pkg._literal_table(tabs[n.id]), n)
+                return n
+        new = P().visit(fn)
+        ast.fix_missing_locations(new)
+        return new
+
     def folded(self, cls: str, meth: str, keep=(), expand: bool = True) -> ast.FunctionDef:
         """A copy of method `cls.meth` in the form value-based rules read: extracted helpers put back (`expanded`, unless
         expand=False), class-level constants written in place, and the literal part evaluated (normalize.fold_static: static loops
@@ -458,6 +491,7 @@ class Package:
             owner = self.resolve(cls, meth)[0] or cls          # an inherited method is read where it is defined
             fn = copy.deepcopy(self.expanded(owner, meth, keep) if expand else self.method(owner, meth))
             from .normalize import namedtuple_tables
+            fn = self.with_module_constants(self.cls(owner).file, fn)
             cache[key] = fold_static(self.with_class_constants(cls, fn), namedtuple_tables(self.modules[self.cls(owner).file]))
         return cache[key]
 
